@@ -606,11 +606,9 @@ func takeView(c *txcache.TxCache, senders [][]byte) *view {
 		if got == nil {
 			v.lists[string(s)] = nil
 		}
-		// the returned slice is the caller's: it is reordered and truncated in place (a filter with the got[:0] idiom), which
-		// the pool must not notice at its next selection
-		for a, b := 0, len(got)-1; a < b; a, b = a+1, b-1 {
-			got[a], got[b] = got[b], got[a]
-		}
+		// the returned slice is the caller's: it is rewritten in place (a filter with the got[:0] idiom), which the pool must not
+		// notice at its next selection
+		// (the shape matters: [n, n+1, n] passes the selection's own gap / duplicate / lower-nonce tests, a reversed list does not)
 		if len(got) > 1 {
 			got[len(got)-1] = got[0]
 		}
@@ -728,7 +726,8 @@ func (comp) Run(h *core.History, scratch string) *core.Result {
 			if i%3 == 1 {
 				// an object that has been through another pool (or this one, before a Clear): the precomputed fields carry stale values,
 				// which AddTx must recompute from its own host
-				w.Fee, w.TransferredValue, w.FeePayer = big.NewInt(987654321), big.NewInt(5), []byte("stale-payer")
+				// (a stale fee of 1: a payer who cannot afford the real fee can afford this one)
+				w.Fee, w.TransferredValue, w.FeePayer = big.NewInt(1), big.NewInt(0), []byte("stale-payer")
 				if t.gasLimit != 0 {
 					w.PricePerUnit = 77 // (with a gas limit of 0 precomputeFields leaves PricePerUnit alone: a fresh object has 0 there, so has this one)
 				}
